@@ -42,6 +42,17 @@ def scenarios(tier, seed):
                 out.append({"id": i, "stdoutFile": so, "stderrFile": se, "output": False, "script": i % 3 == 0, "retries": 0, "failUntil": fail,
                             "nout": n, "nerr": n // 2 + 1, "order": ["outfirst", "chunks", "errfirst"][i % 3], "doneChan": i % 2 == 0, "tailLate": False,
                             "repeat": 3})
+    # an executor that writes the bytes itself (Write calls on the writers the node hands it, as the jq / http / mail / docker
+    # executors do) instead of running a child: a child's output is copied by os/exec through bufio.Writer.ReadFrom, which
+    # bypasses an empty buffer, so only this kind shows whether every buffered writer (log, stdout file, stderr file) is
+    # flushed and closed at teardown (F-12c: the stderr file's writer was not)
+    for so, se, ou in itertools.product([False, True], repeat=3):
+        for retries, fail in [(0, 0), (1, 1), (2, 1), (1, 2)]:
+            for n in ([1, 100, 4096, 4097, 10000] if tier == "quick" else [0, 1, 100, 4095, 4096, 4097, 8193, 10000, 65537, rnd.randrange(2, 60000)]):
+                i += 1
+                out.append({"id": i, "stdoutFile": so, "stderrFile": se, "output": ou, "script": False, "retries": retries, "failUntil": fail,
+                            "nout": n, "nerr": [n, n // 2 + 1, 1][i % 3], "order": ["outfirst", "errfirst", "chunks"][i % 3],
+                            "doneChan": i % 2 == 0, "tailLate": False, "writer": True})
     # both streams written at the same time with output: set: the executor then drains two pipes concurrently into writers
     # that share the log (and the stdout file). A missing lock there corrupts only now and then (about 3 % of such runs),
     # so this configuration is repeated often
